@@ -514,12 +514,19 @@ func init() {
 		}
 		root := NewRand(c.seed)
 		uris := []string{"file:///a.num", "file:///b.num", "file:///c.num"}
+		// documents are told apart by their whole URI: same path under another scheme or query, no path at all
+		exotic := [][]string{{"untitled:Untitled-1", "untitled:Untitled-2", "untitled:Untitled-3"}, {"file:///a.num", "git:/a.num?ref=main", "file:///a.num?x=1"}, {"file:///d/a.num", "file:///e/a.num", "file:///d/a.num#frag"}}
 		n := c.size(60, 3000)
 		for i := 0; i < n; i++ {
 			r := root.Fork()
 			texts := []string{smallScript(r, true), smallScript(r, false), smallScript(r, true), ""}
 			if r.Chance(1, 2) {
 				texts[3] = smallScript(r, false)
+			}
+			if i%5 == 2 {
+				uris = exotic[(i/5)%len(exotic)]
+			} else {
+				uris = []string{"file:///a.num", "file:///b.num", "file:///c.num"}
 			}
 			m := 3 + r.Intn(30)
 			var hist []lspReq
